@@ -16,7 +16,7 @@
         present, refuted by a witness when one is absent (inherent in the gogoproto options the
         .proto files choose). *)
 From Irismod Require Import Proto.Desc Proto.DescProofs Proto.Wire Proto.WireEnv Proto.WireProofs
-  Proto.EnvProofs Proto.Check Gen.Descriptors.
+  Proto.EnvProofs Proto.FillProofs Proto.Check Gen.Descriptors.
 Open Scope string_scope.
 
 (** ** (a) descriptors *)
@@ -54,8 +54,12 @@ Print Assumptions all_sources_generated.
 
 (** The text of the .proto files under proto/irismod says the same as the descriptors, on the table
     (file, package, message, field name, number, type, repeated, signer option, enum, value,
-    service, is-Msg-service, method, request, response, streaming). *)
-Theorem proto_sources_agree : source_rows = desc_rows pulsar_files.
+    service, is-Msg-service, method, request, response, streaming) and on EVERY message / field /
+    enum / enum-value / service / method option: the option names written in the text are
+    resolved to extension numbers through the linked descriptors of gogo.proto, cosmos.proto,
+    msg.proto, amino.proto, annotations.proto, descriptor.proto, their values rendered in wire form
+    (message-valued options - [aggregate_opts] - by presence only). *)
+Theorem proto_sources_agree : source_rows = desc_rows aggregate_opts pulsar_files.
 Proof. apply dec_eq_sound. vm_compute. reflexivity. Qed.
 Print Assumptions proto_sources_agree.
 
@@ -207,6 +211,30 @@ Proof.
   split; [vm_compute; discriminate|]. vm_compute. reflexivity.
 Qed.
 Print Assumptions roundtrip_absent_nonnullable_refuted.
+
+(** The strongest true variant when non-nullable fields may be absent: in a well-formed
+    environment ([env_ok], [env_typed]: field numbers unique per message, the defaults gogoproto
+    emits are well typed and themselves fully populated) what the gogoproto family emits - [v'], the value with its absent
+    non-nullable fields filled in - is fully populated; hence the gogoproto family re-encodes [v']
+    byte for byte and the plain proto3 decoder both families share returns [v'].  (This is what
+    the check observes on every case: gogo re-encoded = api re-encoded = gogo bytes.) *)
+Theorem roundtrip_absent_partial : forall (fuel : nat) (e : env) (name : string) (v : value),
+  env_ok fuel e = true -> env_typed e = true ->
+  typedb e (WMsg name) v = true ->
+  let v' := fill fuel e (WMsg name) v in
+  gogo_enc fuel e name v = enc v'
+  /\ populatedb fuel e (WMsg name) v' = true
+  /\ gogo_enc fuel e name v' = enc v'
+  /\ decode e name (enc v') = Some v'.
+Proof. exact roundtrip_absent_partial_lemma. Qed.
+Print Assumptions roundtrip_absent_partial.
+
+(** the environments computed from the regenerated descriptors are well-formed, and the
+    hypotheses hold for the refutation witness *)
+Example genv_ok :
+  env_ok FUEL genv = true /\ env_typed genv = true /\ env_ok FUEL penv = true
+  /\ typedb genv (WMsg "irismod.coinswap.MsgAddLiquidity") (VMsg [(4, VInt 5); (5, VB "69616131")])%N = true.
+Proof. repeat split; vm_compute; reflexivity. Qed.
 
 (** the hypotheses of [roundtrip_populated] are satisfiable by a non-trivial value of a real
     message: all fields of MsgAddLiquidity set, nested Coin populated *)
